@@ -4,7 +4,9 @@
     S <nclasses> { C <exposeClass> <nmembers> { <key> <member> } } I <n> { <key> <val> } R <nreq> { q <batch> <oneway> <method> <nargs> { <name> } }
       member := mf <fn> | ms <fn> | mc <fn> | mp <exposeProp> <ofn> <ofn> <ofn> | ma <val>
       fn     := f <name> <fid> <expose> <oneway>          ofn := <fn> | x
-      val    := vd | vi <exposed> <hasCall> <callId> <initId> | vc <exposed> <hasCall> <callId> <initId>
+      val    := vd | vi <exposed> <hasCall> <callId> <initId> | vc <exposed> <hasCall> <callId> <initId> | vf <fn>
+    optionally followed by a history   E <n> { is <key> <val> | id <key> | ts <class#> <key> <member> | td <class#> <key> | q ... }
+    (each step answers "step" / "steperr:<err>", each request as below; the metadata is that of the initial shape)
       key / name inside fn := comma separated code points ("-" = empty)
       request name := s<code points> | h | u
   Reply:
@@ -56,6 +58,8 @@ def pVal : P Val
   | "vd" :: r => some (.data, r)
   | "vi" :: r => (pHelper r).map fun (h, r) => (.inst h, r)
   | "vc" :: r => (pHelper r).map fun (h, r) => (.cls h, r)
+  | "vf" :: r => (pFn r).map fun (d, r) =>
+      (.fn { fname := d.fname, fid := d.fid, exposed := d.expose, oneway := d.oneway }, r)
   | _ => none
 
 def pMember : P MemberDecl
@@ -107,7 +111,33 @@ def pReq : P Req
     pure ({ batch := b, oneway := o, method := m, args := as }, r)
   | _ => none
 
-def pLine : List String → Option (List ClassDecl × List (Name × Val) × List Req)
+/-- an event of the history after the first block of requests: a run-time change (the member of a
+    `setMember` still as a declaration: the member decorators run when the step is executed) or a request -/
+inductive Ev
+  | setInst (k : Name) (v : Val)
+  | delInst (k : Name)
+  | setMember (ci : Nat) (k : Name) (m : MemberDecl)
+  | delMember (ci : Nat) (k : Name)
+  | req (r : Req)
+
+def pEv : P Ev
+  | "is" :: r => do
+    let (k, r) ← pName r
+    let (v, r) ← pVal r
+    pure (.setInst k v, r)
+  | "id" :: r => (pName r).map fun (k, r) => (.delInst k, r)
+  | "ts" :: r => do
+    let (ci, r) ← pNat r
+    let (k, r) ← pName r
+    let (m, r) ← pMember r
+    pure (.setMember ci k m, r)
+  | "td" :: r => do
+    let (ci, r) ← pNat r
+    let (k, r) ← pName r
+    pure (.delMember ci k, r)
+  | ts => (pReq ts).map fun (q, r) => (.req q, r)
+
+def pLine : List String → Option (List ClassDecl × List (Name × Val) × List Req × List Ev)
   | "S" :: r => do
     let (n, r) ← pNat r
     let (cs, r) ← pMany pClass n r
@@ -119,7 +149,13 @@ def pLine : List String → Option (List ClassDecl × List (Name × Val) × List
       | "R" :: r =>
         let (n, r) ← pNat r
         let (qs, r) ← pMany pReq n r
-        if r.isEmpty then pure (cs, inst, qs) else none
+        match r with
+        | [] => pure (cs, inst, qs, [])
+        | "E" :: r =>
+          let (n, r) ← pNat r
+          let (evs, r) ← pMany pEv n r
+          if r.isEmpty then pure (cs, inst, qs, evs) else none
+        | _ => none
       | _ => none
     | _ => none
   | _ => none
@@ -141,18 +177,31 @@ def cfg : Cfg :=
     getPriv := Pyro.Gen.C02.getGatePrivate
     setPriv := Pyro.Gen.C02.setGatePrivate }
 
+def reqPart (sh : Shape) (q : Req) : String :=
+  let (rep, eff) := dispatch cfg sh q
+  replyTok rep ++ " " ++ natListToString eff
+
+/-- the history after the first block: same recursion as `Pyro.Expose.runHistory`, printing one part per event -/
+def runEvents : Shape → List Ev → List String
+  | _, [] => []
+  | sh, .req q :: rest => reqPart sh q :: runEvents sh rest
+  | sh, .setInst k v :: rest => "step" :: runEvents (applyStep sh (.setInst k v)) rest
+  | sh, .delInst k :: rest => "step" :: runEvents (applyStep sh (.delInst k)) rest
+  | sh, .delMember ci k :: rest => "step" :: runEvents (applyStep sh (.delMember ci k)) rest
+  | sh, .setMember ci k md :: rest =>
+    match buildMember md with
+    | .ok m => "step" :: runEvents (applyStep sh (.setMember ci k m)) rest
+    | .error e => ("steperr:" ++ errTok e) :: runEvents sh rest
+
 def step (toks : List String) : String :=
   match pLine toks with
   | none => "bad-op"
-  | some (cs, inst, qs) =>
+  | some (cs, inst, qs, evs) =>
     match buildShape cs inst with
     | .error e => "builderr:" ++ errTok e
     | .ok sh =>
-      let md := metadata sh
+      let md := metadata sh      -- computed (and cached by the code) before any run-time change
       let head := s!"ok M {namesTok md.methods} O {namesTok md.oneway} A {namesTok md.attrs}"
-      let parts := qs.map fun q =>
-        let (rep, eff) := dispatch cfg sh q
-        replyTok rep ++ " " ++ natListToString eff
-      " | ".intercalate (head :: parts)
+      " | ".intercalate (head :: (qs.map (reqPart sh) ++ runEvents sh evs))
 
 def main : IO Unit := runDriver step
